@@ -223,9 +223,12 @@ def _events_for(progs: list, base: int, step: int, tier: str):
             continue
         variants = [([], cls)]
         # subscriptions by the number of parameters the MODEL says the class has are requested via the trace:
-        for args in ([{'k': 'int'}], [{'k': 'int'}, {'k': 'str'}], [{'k': 'str'}]):
+        U_IF = {'k': 'union', 'alts': [{'k': 'int'}, {'k': 'float'}]}
+        U_FI = {'k': 'union', 'alts': [{'k': 'float'}, {'k': 'int'}]}
+        # (the two unions are equal for typing, not for pane: the left-most accepting member wins)
+        for args in ([{'k': 'int'}], [{'k': 'int'}, {'k': 'str'}], [{'k': 'str'}], [U_IF], [U_FI]):
             try:
-                sub = cls[tuple({'int': int, 'str': str}[a['k']] for a in args)]
+                sub = cls[tuple(ctype(a) for a in args)]
                 so = 'ok'
             except Exception as e:  # noqa
                 sub, so = None, type(e).__name__
